@@ -3,6 +3,7 @@ mod consts;
 mod d1;
 mod d2;
 mod d3;
+mod d4;
 mod d5;
 mod d5gen;
 mod nor;
@@ -40,6 +41,10 @@ fn main() {
         Some("consts") => consts::run(),
         Some("d3") => run("d3", &d3::gen, &mut d3::exec),
         Some("d2") => run("d2", &d2::gen, &mut d2::exec),
+        Some("d4") => {
+            let mut ex = d4::Exec::new();
+            run("d4", &d4::gen, &mut |l, o| ex.line(l, o))
+        }
         Some("d1") => {
             let mut ex = d1::Exec::new();
             run("d1", &d1::gen, &mut |l, o| ex.line(l, o))
